@@ -441,3 +441,130 @@ Proof.
     exists fuel', s2. split; [|exact Hrun].
     unfold all_text in *. cbn [map concat]. rewrite Hs, Hs2. now rewrite <- app_assoc.
 Qed.
+
+(* ------------------------------------------------------------------ *)
+(* C06: rejection facts *)
+
+(* rules that cannot start with c never match an input starting with c *)
+Lemma first_match_filter c s : forall rs,
+  forallb (fun ra => negb (nullable (fst ra))) rs = true ->
+  first_match rs (c :: s) = first_match (filter (fun ra => firstc (fst ra) c) rs) (c :: s).
+Proof.
+  induction rs as [|[r a] rs IH]; intros Hn; [reflexivity|].
+  cbn [forallb fst] in Hn. apply andb_prop in Hn as [Hr Hn]. apply negb_true_iff in Hr.
+  cbn [first_match filter fst]. destruct (firstc r c) eqn:Ef.
+  - cbn [first_match]. destruct (match_prefix r (c :: s)); [reflexivity|now apply IH].
+  - rewrite (no_first_no_match r c s Hr Ef). now apply IH.
+Qed.
+
+Lemma rules_nonnull : forallb (fun ra => negb (nullable (fst ra))) rules = true.
+Proof.
+  pose proof rules_ok_true as H. unfold rules_ok in H.
+  repeat (apply andb_prop in H as [H _]). exact H.
+Qed.
+
+(* a character that can start no rule, is no literal and is not ignored is
+   rejected as "Illegal character" at the current location, whatever follows *)
+Theorem illegal_char_rejected st c s' :
+  forallb (fun ra => negb (firstc (fst ra) c)) rules = true ->
+  assoc_chr c literal_chars = None ->
+  in_ranges c (map (fun x => (x, x)) lexignore) = false ->
+  lex_step st c s' = SFail 0 (loc_of st) (c :: s').
+Proof.
+  intros Hf Hl Hi. unfold lex_step. rewrite Hi, (first_match_filter c s' rules rules_nonnull).
+  assert (E : filter (fun ra => firstc (fst ra) c) rules = []).
+  { clear - Hf. induction rules as [|ra rs IH]; [reflexivity|].
+    cbn [forallb] in Hf. apply andb_prop in Hf as [H1 H2]. apply negb_true_iff in H1.
+    cbn [filter]. rewrite H1. now apply IH. }
+  rewrite E. cbn [first_match]. now rewrite Hl.
+Qed.
+
+(* '#': only the pragma, include and generic directive rules can match, so a
+   '#' is a pragma/include token, a dropped #line/#warning, or an error *)
+Definition hash_rules : list (rx * action) := filter (fun ra => firstc (fst ra) 35) rules.
+
+Definition hash_rules_ok : bool :=
+  forallb (fun ra => match snd ra with
+                     | ARet ty => (ty =? T_PRAGMA_DIRECTIVE) || (ty =? T_INCLUDE_DIRECTIVE)
+                     | APP => true
+                     | _ => false end) hash_rules
+  && match assoc_chr 35 literal_chars with None => true | Some _ => false end
+  && negb (in_ranges 35 (map (fun x => (x, x)) lexignore)).
+
+Lemma hash_rules_ok_true : hash_rules_ok = true.
+Proof. vm_compute. reflexivity. Qed.
+
+Theorem hash_is_directive_or_error st s' :
+  match lex_step st 35 s' with
+  | SPiece (PTok ty _ _ _) _ _ => ty = T_PRAGMA_DIRECTIVE \/ ty = T_INCLUDE_DIRECTIVE
+  | SPiece (PDrop t) _ _ => parse_line_directive t <> None \/ starts_with str_warning t = true
+  | SPiece (PIgn _) _ _ => False
+  | SFail k _ _ => True
+  end.
+Proof.
+  pose proof hash_rules_ok_true as Hok. unfold hash_rules_ok in Hok.
+  apply andb_prop in Hok as [Hok Hi]. apply andb_prop in Hok as [Hr Hl].
+  apply negb_true_iff in Hi. rewrite forallb_forall in Hr.
+  unfold lex_step. rewrite Hi, (first_match_filter 35 s' rules rules_nonnull). fold hash_rules.
+  destruct (first_match hash_rules (35 :: s')) as [[a rest]|] eqn:Efm.
+  - apply first_match_in in Efm as (r & Hin & _). specialize (Hr _ Hin). cbn [snd] in Hr.
+    destruct a as [ty|ty|ty|ty|kk|]; try discriminate.
+    + apply orb_prop in Hr as [Hr|Hr]; apply N.eqb_eq in Hr; auto.
+    + destruct (parse_line_directive _) as [[n f]|] eqn:Ep.
+      * left. rewrite Ep. discriminate.
+      * destruct (starts_with str_warning _) eqn:Ew; [right; exact Ew|].
+        destruct (contains str_define _); exact I.
+  - destruct (assoc_chr 35 literal_chars); [discriminate|exact I].
+Qed.
+
+(* the line counter after a run: start + newlines of all text consumed *)
+Lemma lex_loop_lineno : forall fuel st s ps o,
+  lex_loop fuel st s = (ps, o) ->
+  lineno (fold_left after_piece ps st) = lineno st + count_nl (all_text ps).
+Proof.
+  induction fuel as [|f IH]; intros st s ps o H.
+  - destruct s; cbn [lex_loop] in H; inversion H; subst; cbn; lia.
+  - destruct s as [|c s']; cbn [lex_loop] in H; [inversion H; subst; cbn; lia|].
+    destruct (lex_step st c s') as [p st' rest|k loc t] eqn:Es; [|inversion H; subst; cbn; lia].
+    destruct (lex_loop f st' rest) as [ps' o'] eqn:El. inversion H; subst. clear H.
+    pose proof (lex_step_piece _ _ _ _ _ _ Es) as (_ & _ & Hl & _).
+    apply lex_step_state in Es as [-> _]. apply IH in El.
+    cbn [fold_left]. rewrite El. unfold all_text. cbn [map concat]. rewrite count_nl_app, Hl. lia.
+Qed.
+
+(* without a line directive, a lexical error names a line that exists in the input *)
+Theorem lex_error_line_exists file s ps k loc t :
+  lex file s = (ps, Failed k loc t) -> no_rebase ps ->
+  fst loc = file /\ exists rest, s = (all_text ps ++ rest)%list /\
+    snd loc = Z.of_N (1 + count_nl (all_text ps)).
+Proof.
+  unfold lex. intros H Hn.
+  pose proof (lex_error_location _ _ _ _ _ _ _ H) as Hloc.
+  pose proof (lex_loop_lineno _ _ _ _ _ H) as Hl.
+  apply lex_loop_spec in H as [_ [rest Hs]].
+  assert (Hst : forall ps0 st0, no_rebase ps0 ->
+            line_off (fold_left after_piece ps0 st0) = line_off st0 /\ fname (fold_left after_piece ps0 st0) = fname st0).
+  { clear. induction ps0 as [|p r IH]; intros st0 Hn; [split; reflexivity|].
+    cbn [fold_left]. destruct p as [ty t line loc|c|t]; cbn [no_rebase after_piece] in *.
+    - destruct (IH (bump st0 t) Hn) as [A B]. rewrite A, B. split; reflexivity.
+    - exact (IH st0 Hn).
+    - destruct Hn as [Hp Hn]. unfold rebase. rewrite Hp. exact (IH st0 Hn). }
+  destruct (Hst ps (init_state file) Hn) as [Ho Hf].
+  subst loc. unfold loc_of. cbn [fst snd]. rewrite Hf, Ho, Hl. cbn [init_state fname line_off lineno].
+  split; [reflexivity|]. exists (t ++ rest)%list. split; [exact Hs|]. lia.
+Qed.
+
+(* ------------------------------------------------------------------ *)
+(* C07: the token loop makes at most one iteration per input character *)
+Theorem lex_pieces_linear : forall fuel st s ps o,
+  lex_loop fuel st s = (ps, o) -> (length ps <= length s)%nat.
+Proof.
+  induction fuel as [|f IH]; intros st s ps o H.
+  - destruct s; cbn [lex_loop] in H; inversion H; subst; cbn; lia.
+  - destruct s as [|c s']; cbn [lex_loop] in H; [inversion H; subst; cbn; lia|].
+    destruct (lex_step st c s') as [p st' rest|k loc t] eqn:Es; [|inversion H; subst; cbn; lia].
+    destruct (lex_loop f st' rest) as [ps' o'] eqn:El. inversion H; subst. clear H.
+    apply lex_step_piece in Es as (Hs & Hne & _ & _). apply IH in El.
+    apply (f_equal (@length N)) in Hs. rewrite app_length in Hs. cbn [length] in *.
+    destruct (piece_text p); [congruence|]. cbn [length] in Hs. lia.
+Qed.
